@@ -109,6 +109,15 @@ CLAIMED = {
         technique="Lean 4 proof (inductive invariant over iteration batches, case analysis over all codes) + exhaustive differential vs real Gateway/AshProtocol on a virtual-time loop",
         note="Calls (reset, wait_for_startup_reset) start in their own iteration; I/O events are batched. ",
     ),
+    "C12": dict(
+        text="Model of send_packet / _handle_frame_sent at settled loop states: message tag and pending entry, up to |RETRY_DELAYS| attempts each under _req_lock (explicit holder + FIFO waiters) with set-up commands then the send command, busy retry sleeps, the confirmation wait under APS_ACK_TIMEOUT, confirmations arriving early/late/foreign/duplicate, cancellation, command failures. "
+        "Theorems: every EZSP command issued belongs to the request holding the lock when the step settles; while a request holds the lock no new request, confirmation, deadline, clock advance or foreign cancellation takes it away or issues a command (set-up and send never interleaved); whatever the outcome the request's entry leaves the pending table in the step that reports it; "
+        "a confirmation matching no request in progress, or a second one, is counted and changes nothing; the own confirmation decides (delivered iff success); a delivered NWK-addressed request has a successful confirmation with its own (destination, tag); refusal ends at once, busy arms exactly the generated delay, the last attempt gives up, a missing confirmation raises exactly APS_ACK_TIMEOUT after acceptance. "
+        "Tie: generated RETRY_DELAYS/APS_ACK_TIMEOUT + the real ControllerApplication.send_packet over the real per-version wrappers (EZSPv4/8/9/14; all 11 thorough) with a scripted command layer on a virtual clock: 6 packet kinds × all enqueue scripts {accepted, busy, refused}³ × 7 confirmation behaviours, random scripts with 2–3 concurrent requests, cancellations and command failures; model compared at every settled state, oracle on the trace.",
+        ref="6 C12",
+        technique="Lean 4 proof (structural invariants on the lock holder, per-event specifications) + exhaustive/random differential vs real send_packet on a virtual clock",
+        note="partial: zigpy's _limit_concurrency is not modelled (at most 3 concurrent requests, below its limit); zigpy.util.Requests is shimmed harness-side (the installed zigpy no longer has it). ",
+    ),
     "C15": dict(
         text="Inductive invariant (groups distinct; every host entry programmed non-zero at its index; every free index cleared; free ∪ used covers the table) proved for every "
         "operation sequence over {start-up, subscribe, unsubscribe}, every table size, every initial table with each group at most once, every answer {OK, rejection, timeout} and every "
